@@ -68,12 +68,13 @@ Readers1 == { <<Rn("A", "doc")>>, <<Rn("base", "doc")>>, <<Rn("A", "tpl")>> }
 ProgsTiny  == { <<<<Ld("B", DefCB2)>>, <<Rn("A", "doc")>>>> }
 \* with SetupFlat: the only way to go wrong is the second fetch of RenderTemplateToDocument
 ProgsRefetch == { <<<<Ld("base", DefRD)>>, <<Rn("base", "tpl")>>>> }
-ProgsQuick == Writers1 \X Readers1
+\* writer against reader, and two readers at once (concurrent renders on one engine)
+ProgsQuick == (Writers1 \X Readers1) \cup (Readers1 \X Readers1)
 Writers2 == Writers1 \cup { <<Ld("B", DefDB)>>, <<Ld("B", DefCB), Ld("G", DefGA)>>, <<Ld("B", DefCB2), [op |-> "Remove", n |-> "B"]>>,
                             <<Ld("base", DefRD), Ld("A", DefCA)>>, <<[op |-> "Get", n |-> "A"], Ld("A", DefX)>> }
 Readers2 == Readers1 \cup { <<Rn("A", "doc"), Rn("A", "doc")>>, <<Rn("B", "doc")>>, <<Rn("base", "tpl"), Rn("A", "doc")>>,
                             <<Rn("G", "doc")>>, <<[op |-> "Validate", n |-> "A"], Rn("A", "doc")>> }
-ProgsThorough == (Writers2 \X Readers2) \cup (Writers1 \X Writers1)
+ProgsThorough == (Writers2 \X Readers2) \cup (Writers1 \X Writers1) \cup (Readers2 \X Readers2)
 \* three threads: two writers and a reader (sampled by simulation only)
 ProgsThree == Writers1 \X Writers1 \X Readers2
 \* programs without inheritance: must be linearisable on every tree
